@@ -198,7 +198,11 @@ def spline(potential_forms, potential_form_builder):
 
   # Now build the spline object
   try:
+    # (the start and end potentials and their derivatives are evaluated at the detach and attach points here)
     spline = spline_factory.build_spline(detach_point, attach_point, pot2)
+  except (ArithmeticError, ValueError) as e:
+    raise ConfigurationException("spline() cannot join its potentials between {} and {}: evaluating them at these points failed with {}: {}".format(
+      detach_point_r, attach_point_r, type(e).__name__, e))
   except ImportError as ie:
     raise_e = ConfigurationException("When using the '{}' spline type an additional package is required. Please install. {}".format(
         pot2.potential_form,
